@@ -10,46 +10,77 @@ SYMBOLIC_TWINS = {}
 
 # -- _reset(cell): the local closure contract (no transitive closure anywhere) -----------------------------
 
-def reset_uncaches_cell(self, cell, result):
+def reset_uncaches_cell(self, cell, unread_range, result):
     return not cached(cell)
 
 
-def reset_monotone(self, cell, result):
+def reset_monotone(self, cell, unread_range, result):
     """nothing un-cached becomes cached"""
     return forall_nodes(lambda m: implies(not old_cached(m), not cached(m)))
 
 
-def reset_keeps_values(self, cell, result):
+def reset_keeps_values(self, cell, unread_range, result):
     """a node that is still cached holds the value it had"""
     return forall_nodes(lambda m: implies(cached(m), same_value(m)))
 
 
-def reset_closed(self, cell, result):
+def reset_closed(self, cell, unread_range, result):
     """every node this call un-caches has only un-cached successors on exit"""
     return forall_nodes(lambda m: implies(old_cached(m) and not cached(m),
                                           forall_nodes(lambda k: implies(succ(m, k), not cached(k)))))
 
 
+def reset_closed_through_unread_ranges(self, cell, unread_range, result):
+    """... and so has every RANGE successor of such a node: a range that a formula only refers to (an intersection)
+    can be un-cached while the formula holds a value - the reset does not stop there"""
+    return forall_nodes(lambda m: implies(
+        old_cached(m) and not cached(m),
+        forall_nodes(lambda r: implies(succ(m, r) and is_range(r),
+                                       forall_nodes(lambda k: implies(succ(r, k), not cached(k)))))))
+
+
+def reset_unread_range_is_closed(self, cell, unread_range, result):
+    """called for an un-read range: its own successors are un-cached on exit, whether or not it held a value"""
+    return implies(unread_range, forall_nodes(lambda k: implies(succ(cell, k), not cached(k))))
+
+
+def pre_reset(self, cell, unread_range):
+    return implies(unread_range, is_range(cell))
+
+
 # loop invariant of `for child_cell in self.dep_graph.successors(cell)` (loop 0 of _reset)
 
-def inv_cell_uncached(self, cell):
+def inv_closed_through_ranges_except_cell(self, cell, unread_range):
+    return forall_nodes(lambda m: implies(
+        old_cached(m) and not cached(m) and not same_node(m, cell),
+        forall_nodes(lambda r: implies(succ(m, r) and is_range(r),
+                                       forall_nodes(lambda k: implies(succ(r, k), not cached(k)))))))
+
+
+def inv_done_ranges_closed(self, cell, unread_range):
+    """the successors already visited that are ranges have only un-cached successors"""
+    return forall_nodes(lambda r: implies(in_done(r) and is_range(r),
+                                          forall_nodes(lambda k: implies(succ(r, k), not cached(k)))))
+
+
+def inv_cell_uncached(self, cell, unread_range):
     return not cached(cell)
 
 
-def inv_monotone(self, cell):
+def inv_monotone(self, cell, unread_range):
     return forall_nodes(lambda m: implies(not old_cached(m), not cached(m)))
 
 
-def inv_keeps_values(self, cell):
+def inv_keeps_values(self, cell, unread_range):
     return forall_nodes(lambda m: implies(cached(m), same_value(m)))
 
 
-def inv_closed_except_cell(self, cell):
+def inv_closed_except_cell(self, cell, unread_range):
     return forall_nodes(lambda m: implies(old_cached(m) and not cached(m) and not same_node(m, cell),
                                           forall_nodes(lambda k: implies(succ(m, k), not cached(k)))))
 
 
-def inv_done_uncached(self, cell):
+def inv_done_uncached(self, cell, unread_range):
     """the successors already visited are un-cached"""
     return forall_nodes(lambda k: implies(in_done(k), not cached(k)))
 
@@ -58,11 +89,14 @@ RESET = 'pycel.excelcompiler:ExcelCompiler._reset'
 
 CONTRACTS = [
     Contract(RESET, 'C01', heap=True, decreases='recursive',
-             params=dict(self=HeapCompiler(cycles=False), cell=HeapCell()),
-             ensures=[reset_uncaches_cell, reset_monotone, reset_keeps_values, reset_closed],
+             params=dict(self=HeapCompiler(cycles=False, evaluating=[]), cell=HeapCell(),
+                         unread_range=Union(Const(False), Const(True))),
+             requires=[pre_reset],
+             ensures=[reset_uncaches_cell, reset_monotone, reset_keeps_values, reset_closed,
+                      reset_closed_through_unread_ranges, reset_unread_range_is_closed],
              returns=NoneT(),
              invariants={0: [inv_cell_uncached, inv_monotone, inv_keeps_values, inv_closed_except_cell,
-                             inv_done_uncached]}),
+                             inv_done_uncached, inv_closed_through_ranges_except_cell, inv_done_ranges_closed]}),
 ]
 
 
@@ -325,21 +359,23 @@ def install_runtime_contracts(R):
                     lambda: sv_keeps_local_ii(self, address, value, False, r), w)
         return r
 
-    def _reset(self, cell):
+    def _reset(self, cell, unread_range=False):
         outer = depth['reset'] == 0
         if outer:
             saved = (HS.CURRENT.compiler, HS.CURRENT.old)
             HS.snapshot(self)
         depth['reset'] += 1
         try:
-            return real_reset(self, cell)
+            return real_reset(self, cell, unread_range)
         finally:
             depth['reset'] -= 1
             if outer:
                 w = {'cell': str(cell.address)}
-                R.guard('ExcelCompiler._reset/post', lambda: reset_uncaches_cell(self, cell, None) and
-                        reset_monotone(self, cell, None) and reset_keeps_values(self, cell, None) and
-                        reset_closed(self, cell, None), w)
+                R.guard('ExcelCompiler._reset/post', lambda: reset_uncaches_cell(self, cell, unread_range, None) and
+                        reset_monotone(self, cell, unread_range, None) and reset_keeps_values(self, cell, unread_range, None) and
+                        reset_closed(self, cell, unread_range, None) and
+                        reset_closed_through_unread_ranges(self, cell, unread_range, None) and
+                        reset_unread_range_is_closed(self, cell, unread_range, None), w)
                 HS.CURRENT.compiler, HS.CURRENT.old = saved
 
     EC.ExcelCompiler.set_value = set_value
@@ -370,10 +406,19 @@ def bounded(tier, seed, R):
     wbs += W.random_dags(rnd, 6 if not thorough else 60)
     wbs.append(W.WB({'A1': 1, 'A2': 2, 'T!A1': 5}, {'B1': '=A1+T!A1', 'T!B1': '=SUM(S!A1:A2)*A1', 'C1': '=B1+T!B1',
                                                     'T!C1': '=SUM(A:A)+S!C1'}, 'two-sheets'))
+    # formulas that REFER to ranges without reading them (intersection, ROW): the ranges stay un-cached while
+    # the formula holds a value, the reset must pass through them (second set_value of the same input)
+    wbs.append(W.WB({'A1': 3, 'A3': 1, 'B2': -3, 'C9': 10},
+                    {'A2': '=C9+1', 'D1': '=SUM(A1:A3 A2:B2)', 'D2': '=IFERROR(A2,9)', 'D3': '=A2*2', 'E1': '=D1*2+ROW(A3)'},
+                    'unread-ranges'))
     with W.TmpDir() as tmp:
         for wb in wbs:
             for origin in W.ORIGINS:
                 hs = W.histories(rnd, wb, n_hist, length) + W.directed_histories(rnd, wb, limit=20 if not thorough else 60)
+                if wb.name == 'unread-ranges':
+                    hs.append([('set', 'C9', 0), ('eval', 'A2'), ('eval', 'D1'), ('set', 'C9', 1), ('eval', 'D1'), ('eval', 'E1')])
+                    hs.append([('eval', 'E1'), ('set', 'C9', 0), ('eval', 'E1'), ('set', 'C9', 5), ('eval', 'E1'),
+                               ('set', 'C9', 7), ('eval', 'D1')])
                 if wb.name == 'float-noise':
                     hs.append([('eval', 'B1'), ('set', 'A1', 100.0004), ('eval', 'B1'), ('eval', 'B2')])
                     hs.append([('eval', 'B1'), ('set', 'A2', 1e-9), ('eval', 'B2')])
@@ -394,8 +439,9 @@ def bounded(tier, seed, R):
 LEVEL = 'other'
 EXPLANATION = ('Mixed. PROVED (SMT over an uninterpreted heap: value : Node -> V, dep_graph edges as a relation, no transitive '
                'closure): ExcelCompiler._reset satisfies its local closure contract (cell un-cached, nothing becomes cached, '
-               'cached values untouched, every node it un-caches has only un-cached successors) - loop invariant over the '
-               'successor set and the recursive call discharged against its own contract; ExcelCompiler.set_value on an input '
+               'cached values untouched, every node it un-caches has only un-cached successors, and so has every RANGE successor '
+               'of such a node - a range that a formula only refers to stays un-cached while the formula holds a value) - loop '
+               'invariant over the successor set and the recursive call discharged against its own contract; ExcelCompiler.set_value on an input '
                'cell writes exactly the given value (0 / FALSE and 1 / TRUE are different, blank included), changes no other '
                'cached value, and re-establishes the invariant Local = (every cached computed node has cached read-precedents, '
                'and its value is F(node, current values)) from which "cached => from-scratch value" follows by induction on '
